@@ -30,10 +30,12 @@ type c24state struct {
 	holder  map[int]string
 }
 
-func (w *c24wire) StopTimer() bool  { return true }
-func (w *c24wire) ResetTimer() bool { return true }
+// The real connection's methods are full of synchronisation operations: each fake method is a scheduling point.
+func (w *c24wire) StopTimer() bool  { vsched.Point("wire.stoptimer", nil); return true }
+func (w *c24wire) ResetTimer() bool { vsched.Point("wire.resettimer", nil); return true }
 func (w *c24wire) Error() error     { return w.err }
 func (w *c24wire) Close() {
+	vsched.Point("wire.close", nil)
 	if !w.closed {
 		w.closed = true
 		w.st.closedN++
@@ -70,8 +72,17 @@ func c24body(c c24cfg) func(x *vsched.Exec) {
 			return &c24wire{id: st.made, st: st}
 		})
 		cctx, cancel := context.WithCancel(context.Background())
-		dctx, dcancel := context.WithTimeout(context.Background(), time.Second)
-		defer dcancel()
+		// only create the deadline context when a thread uses it: its timer would otherwise be the "earliest timer"
+		// that the early-timer deviation fires instead of the cleanup timer
+		var dctx context.Context = context.Background()
+		for _, a := range c.acq {
+			if a.ctx == "deadline" {
+				var dcancel context.CancelFunc
+				dctx, dcancel = context.WithTimeout(context.Background(), time.Second)
+				defer dcancel()
+				break
+			}
+		}
 		donectx, dc := context.WithCancel(context.Background())
 		dc()
 		needCancel := false
@@ -106,6 +117,11 @@ func c24body(c c24cfg) func(x *vsched.Exec) {
 					wasClosed := closed
 					w := p.Acquire(ctx)
 					r := res{who: name, at: x.Elapsed(), afterCls: wasClosed}
+					if w == nil {
+						x.Fail("pool handed out a nil connection", "%s", name)
+						results = append(results, r)
+						continue
+					}
 					fw, ok := w.(*c24wire)
 					if !ok {
 						pw := w.(*pipe)
